@@ -597,6 +597,8 @@ def partitions(tier):
             if quick and mode in ("header", "short", "long") and \
                     (lite_s or len(blocks) > 1):
                 continue
+            if quick and mode == "none" and len(blocks) > 1:
+                continue    # "payload" includes the untouched response
             parts.append(dict(
                 name="lite-read:%d:%s:%s" % (lite_s, "+".join("%02x" % b for b in blocks), mode),
                 fn="lite_read", params=dict(lite_s=lite_s, blocks=blocks, mode=mode)))
@@ -626,6 +628,9 @@ def partitions(tier):
             name="lite-protect:%d:%s:%d:%d:%d" % (lite_s, pwtype, plen, qlen, pf),
             fn="lite_protect", params=dict(lite_s=lite_s, plen=plen, qlen=qlen,
                                            protect_from=pf, pwtype=pwtype)))
+    # the cipher partitions are the long ones: start them first
+    parts.sort(key=lambda p: (0 if p['fn'] == "lite_read" else
+                              1 if p['fn'].startswith("lite") else 2))
     return parts
 
 
